@@ -69,11 +69,11 @@ def run(prop, tier, seed, scratch, replay=None):
     if prop in ("C08", "C03", "C05"):
         wdrv = vlib.build_driver(scratch, "replay-wallet")
         wtr = scratch.path("wallet.ndjson")
-        wev = 100 if tier == "quick" else 8
+        wev = 100 if tier == "quick" else 20
         wbfs = vlib.run_tlc(scratch, "AddrMgr.tla", "MC_AddrMgr_wallet.cfg", out_traces=wtr, tag="wallet", timeout=900,
                             emit_every=wev, emit_offset=seed)
         vlib.require_tlc_ok(wbfs, "exhaustive exploration (wallet-level stage)")
-        wsim = vlib.run_tlc(scratch, "AddrMgr.tla", "MC_AddrMgr_wallet_sim.cfg", simulate=300 if tier == "quick" else 3000, depth=27, seed=seed,
+        wsim = vlib.run_tlc(scratch, "AddrMgr.tla", "MC_AddrMgr_wallet_sim.cfg", simulate=300 if tier == "quick" else 1000, depth=27, seed=seed,
                             out_traces=wtr, append_traces=True, tag="walletsim", timeout=900)
         if wsim["errors"]:
             raise vlib.Broken("wallet-level simulation failed: %s" % wsim["errors"][:3])
